@@ -24,6 +24,7 @@ def ok(cells=(), nontrivial=True, **kw):
 
 def violation(key, what, cells=(), **kw):
     """key: mechanism key (structural, never coordinates); what: one-line witness"""
+    kw.pop("nontrivial", None)
     return Res(status=VIOLATION, key=key, what=what, cells=list(cells), nontrivial=True, **kw)
 
 
